@@ -12,50 +12,22 @@ open DnsVerif DnsVerif.Rearr DnsVerif.Spec
 
 set_option linter.unusedSimpArgs false
 
-/-- the only exception to monotonicity is the implicit IPv4 null range inside a block across
-`afterIPv4` -/
-theorem exc_is_R4 {S : List SubnetDecl} (h : SubsWF S) {E : Rng} (hE : E ∈ famF S)
-    (hexc : IsExc (famF S) E) :
-    E = R4 ∧ (∀ s ∈ S, ¬ (s.net = firstIPv4 ∧ s.ones = 96)) ∧ ¬ NoStr S := by
+/-- the only exceptions to monotonicity are ranges of mask length 0 (the implicit IPv4 null range
+inside a declared IPv6 block): a declared block inside another range is at least as long -/
+theorem famF_monoW {S : List SubnetDecl} (h : SubsWF S) : RngMonoW (famF S) := by
+  refine ⟨fun E hE hexc => ?_⟩
   obtain ⟨R', hR', hsub, hlt⟩ := hexc
   rcases (mem_famF h).1 hE with ⟨s, hs, rfl⟩ | ⟨⟨s, hs, h0, rfl⟩, ns⟩ | ⟨rfl, n4⟩ | ⟨rfl, n6⟩ |
-      ⟨rfl, n6, ns⟩ <;>
-  rcases (mem_famF h).1 hR' with ⟨s', hs', rfl⟩ | ⟨⟨s', hs', h0', rfl⟩, ns'⟩ | ⟨rfl, n4'⟩ | ⟨rfl, n6'⟩ |
-      ⟨rfl, n6', ns'⟩ <;>
-    first
-    | (exfalso
-       fam_facts
+      ⟨rfl, n6, ns⟩
+  · exfalso
+    rcases (mem_famF h).1 hR' with ⟨s', hs', rfl⟩ | ⟨⟨s', hs', h0', rfl⟩, ns'⟩ | ⟨rfl, n4'⟩ |
+        ⟨rfl, n6'⟩ | ⟨rfl, n6', ns'⟩ <;>
+      (fam_facts
        simp only [Rng.sub, blk, half, R4, R6a, R6b, TOP_eq, afterIPv4_eq, firstIPv4_eq] at hsub hlt
        omega)
-    | (refine ⟨rfl, n4, fun ns => ?_⟩
-       fam_facts
-       simp only [Rng.sub, blk, half, R4, R6a, R6b, TOP_eq, afterIPv4_eq, firstIPv4_eq] at hsub hlt
-       omega)
-
-theorem famF_monoW {S : List SubnetDecl} (h : SubsWF S) : RngMonoW (famF S) := by
-  constructor
-  · intro E hE hexc
-    rw [(exc_is_R4 h hE hexc).1]; rfl
-  · intro E hE hexc X hX hsub hhi
-    obtain ⟨rfl, n4, hstr⟩ := exc_is_R4 h hE hexc
-    rcases (mem_famF h).1 hX with ⟨s, hs, rfl⟩ | ⟨⟨s, hs, h0, rfl⟩, ns⟩ | ⟨rfl, n4'⟩ | ⟨rfl, n6⟩ |
-        ⟨rfl, n6, ns⟩ <;>
-      first
-      | rfl
-      | (exfalso
-         fam_facts
-         simp only [Rng.sub, blk, half, R4, R6a, R6b, TOP_eq, afterIPv4_eq, firstIPv4_eq] at hsub hhi
-         omega)
-  · intro E hE hexc X hX hlo
-    obtain ⟨rfl, n4, hstr⟩ := exc_is_R4 h hE hexc
-    rcases (mem_famF h).1 hX with ⟨s, hs, rfl⟩ | ⟨⟨s, hs, h0, rfl⟩, ns⟩ | ⟨rfl, n4'⟩ | ⟨rfl, n6⟩ |
-        ⟨rfl, n6, ns⟩ <;>
-      first
-      | exact absurd ns hstr
-      | (fam_facts
-         simp only [blk, half, R4, R6a, R6b, TOP_eq, afterIPv4_eq, firstIPv4_eq] at hlo ⊢
-         omega)
-  · intro E hE hexc E' hE' hexc' _
-    rw [(exc_is_R4 h hE hexc).1, (exc_is_R4 h hE' hexc').1]
+  · exact h0.2
+  · rfl
+  · rfl
+  · rfl
 
 end DnsVerif.Lpm
